@@ -180,30 +180,39 @@ Release(ps, I, i, indeg, queue) ==
        ELSE LET n == indeg[p] - 1
             IN Release(ps, I, i + 1, [indeg EXCEPT ![p] = n], IF n = 1 THEN Append(queue, p) ELSE queue)
 
-(* Which edges count in first-parent mode?  With generation numbers git counts in-degrees along first parents only   *)
-(* (revision.c indegree_walk_step); without, sort_in_topological_order counts *every* parent that is shown.  `alle`  *)
-(* selects the second variant.  The two differ only when a shown commit has a shown non-first parent.                *)
-Edges(d, c, fp, alle) == IF alle THEN d.par[c] ELSE Pars(d, c, fp)
+(* Which edges count in first-parent mode?  git has two implementations and they differ (`algo`):                   *)
+(*  "all"   without generation numbers, sort_in_topological_order counts *every* parent that is shown;              *)
+(*  "graph" with generation numbers (commit-graph), in-degrees are counted along first parents only                 *)
+(*          (indegree_walk_step), but when a commit is shown expand_topo_walk skips parents hidden by an end        *)
+(*          *before* it stops at the first parent - the first parent that is not hidden loses a child;              *)
+(*  "first" the plain reading: only first-parent edges exist.                                                       *)
+(* They agree unless a shown commit has a shown non-first parent.  Without first-parent mode all three coincide.    *)
+CountEdges(d, c, fp, algo) == IF algo = "all" THEN d.par[c] ELSE Pars(d, c, fp)
+ReleaseEdges(d, c, fp, algo, hidden) ==
+  IF algo = "graph" /\ fp
+  THEN LET s == SelectSeq(d.par[c], LAMBDA p : p \notin hidden) IN IF s = <<>> THEN <<>> ELSE <<s[1]>>
+  ELSE CountEdges(d, c, fp, algo)
 
-RECURSIVE TopoRun(_, _, _, _, _, _, _, _)
-TopoRun(d, fp, alle, bydate, I, queue, indeg, out) ==
+RECURSIVE TopoRun(_, _, _, _, _, _, _, _, _)
+TopoRun(d, fp, algo, hidden, bydate, I, queue, indeg, out) ==
   IF queue = <<>> THEN out
   ELSE LET k == IF bydate THEN NewestIdx(d, queue, 1, 1) ELSE Len(queue)
            c == queue[k]
            rest == SubSeq(queue, 1, k - 1) \o SubSeq(queue, k + 1, Len(queue))
-           r == Release(Edges(d, c, fp, alle), I, 1, indeg, rest)
-       IN TopoRun(d, fp, alle, bydate, I, r[2], r[1], Append(out, c))
+           r == Release(ReleaseEdges(d, c, fp, algo, hidden), I, 1, indeg, rest)
+       IN TopoRun(d, fp, algo, hidden, bydate, I, r[2], r[1], Append(out, c))
 
-TopoOrderE(d, tips, ends, fp, bydate, alle) ==
+TopoOrderE(d, tips, ends, fp, bydate, algo) ==
   LET I == Shown(d, tips, ends, fp)
-      indeg == [p \in Commits(d) |-> 1 + Cardinality({c \in I : p \in SeqSet(Edges(d, c, fp, alle))})]
+      indeg == [p \in Commits(d) |-> 1 + Cardinality({c \in I : p \in SeqSet(CountEdges(d, c, fp, algo))})]
       start == SelectSeq(SortByDate(d, Dedup(tips)), LAMBDA t : t \in I /\ indeg[t] = 1)
-  IN TopoRun(d, fp, alle, bydate, I, IF bydate THEN start ELSE Reverse(start), indeg, <<>>)
+  IN TopoRun(d, fp, algo, Reachable(d, SeqSet(ends)), bydate, I, IF bydate THEN start ELSE Reverse(start), indeg, <<>>)
 
-TopoOrder(d, tips, ends, fp, bydate) == TopoOrderE(d, tips, ends, fp, bydate, FALSE)
-\* git is one reference for a topological first-parent walk only where its two algorithms agree
+TopoOrder(d, tips, ends, fp, bydate) == TopoOrderE(d, tips, ends, fp, bydate, "first")
+\* git is a reference for a topological first-parent walk only where its two implementations agree
 FpOrderDefined(d, tips, ends, bydate) ==
-  TopoOrderE(d, tips, ends, TRUE, bydate, FALSE) = TopoOrderE(d, tips, ends, TRUE, bydate, TRUE)
+  LET s == TopoOrderE(d, tips, ends, TRUE, bydate, "first")
+  IN s = TopoOrderE(d, tips, ends, TRUE, bydate, "all") /\ s = TopoOrderE(d, tips, ends, TRUE, bydate, "graph")
 
 \* design-level statements about the order operators
 IsTopological(d, fp, seq) ==   \* no parent before one of its shown children
